@@ -43,6 +43,66 @@ KIND = {"ws": 0, "lc": 1, "bc": 2, "shebang": 3, "dlo": 4, "dli": 5, "dbo": 6, "
         "lit:bstr": 25, "lit:cstr": 26, "lit:rstr": 27, "lit:rbstr": 28, "lit:rcstr": 29}
 
 
+# ---------------------------------------------------------------- synthetic forms x every width
+# "a multi-line signature at width 37, a where-clause under another brace style, a rarely used modifier keyword on the
+# vertical path": every syntactic form below is formatted at every max_width 20..130 under several layout presets
+SYN_STMTS = [
+    "let (a,) = f();", "if let Some((first_element,)) = optional_value { use_it(first_element) }", "match t { (a,) => a, ((b,),) => b }", "for (index,) in iterator {}",
+    "let ((a,), [b, .., c], S { d, e: _, .. }, T(f, ..), g @ 1..=5, &h, ref mut i, _) = value;", "let x: (u8,) = (1,);", "let y: fn((u8,)) -> (u8,) = identity;",
+    "let closure = |(a,): (u8,), b: &mut [u8]| -> u8 { a };", "let z = ((first_value,), (second_value,), ());", "let w = &mut *(pointer as *mut (u8,));",
+    "let v = if a { (1,) } else { (2,) };", "call(argument,);", "let q = <(A,) as Trait>::CONST;", "let r = [(1,), (2,)];", "let (mut a, ref b, ref mut c, &d, &mut e) = t;",
+    "let label = 'outer: loop { break 'outer (1,); };", "let s = Struct { tuple: (1,), ..Default::default() };", "let t = x as u8 as (u16) as u32;", "return (value,);",
+    "let u = unsafe { &*(p as *const dyn Trait) };", "let n = -(-x) + !(!y) - *(&z);", "let m = a..b; let k = ..=c; let j = d..; let i = ..;",
+    "let h = move || async move { yield_now().await };", "let g = static_fn::<{ N + 1 }, 'static, u8>();", "let f = r#match + r#type.r#fn();", "let e = 1_000u64 + 0xFF_u8 as u64 + 1e-3_f32 as u64 + 0b1010 + 0o77;",
+    "let d = b'a' as char == 'a' && \"s\" == r\"s\" && b\"b\" == br#\"b\"#;", "let c = matches!(x, Some(1 | 2) | None);", "let b = x?.y()?.z?;", "let a = loop { break; };",
+]
+SYN_ITEMS = [
+    "impl<'a, T: Trait<'a> + ?Sized, U: Other<T, Assoc = u8>> !Marker<'a, T, U> for Container<'a, T, U> {}", "unsafe impl<T: ?Sized + Send> !Sync for Wrapper<T> where T: Copy {}",
+    "impl S { pub(crate) default unsafe extern \"C\" fn method(&self, (a,): (u8,)) -> (u8,) { (a,) } }", "pub const unsafe extern \"C\" fn const_unsafe_extern(argument: u8) -> u8 { argument }",
+    "pub async unsafe fn async_unsafe<'a>(argument: &'a mut u8) -> &'a u8 { argument }", "unsafe extern \"C\" { pub safe fn safe_fn(a: u8); pub unsafe fn unsafe_fn(); pub static mut MUTABLE: u8; pub safe static SAFE: u8; }",
+    "pub auto trait AutoTrait {}", "pub unsafe auto trait UnsafeAuto {}", "pub(in crate::a::b) static mut GLOBAL: (u8,) = (1,);", "pub(super) const NAME: &'static str = \"x\";",
+    "type Alias<T: ?Sized> where T: 'static = Box<(T,)>;", "fn generic<const N: usize, T>(x: [T; N]) -> impl Iterator<Item = &'static dyn for<'a> Fn(&'a T) -> &'a T> + '_ { x }",
+    "fn pointers(x: &'_ mut dyn Trait, y: *const u8, z: *mut u8, w: !) -> ! { loop {} }", "struct Tuple<'a, T: 'a + ?Sized>(&'a mut T, PhantomData<fn() -> T>, pub (u8,));",
+    "trait Gat { type G<'a>: Iterator<Item = &'a u8> where Self: 'a; const C: (u8,) = (1,); fn f<'a>(&'a self) -> Self::G<'a>; }",
+    "#[cfg_attr(feature = \"x\", derive(Debug), allow(unused))] #[doc = \"text\"] #[must_use = \"reason\"] pub fn attributed() {}",
+    "enum E { #[default] A, #[cfg(x)] B(#[allow(unused)] u8), C { #[serde(rename = \"d\")] d: (u8,) } = 3 }", "pub macro decl_macro($a:expr) { $a }",
+    "impl<T> Trait for T where for<'a> &'a T: IntoIterator<Item = (u8,)>, T: ?Sized + 'static, {}", "pub fn where_single<T>(x: T) -> T where T: Clone { x }", "extern crate alloc as renamed; extern \"C\" fn abi() {} extern fn default_abi() {}",
+    "fn variadic_and_self(self: &mut Self, mut a: u8, _: (), ref b: u8) {} fn dyn_star(x: &dyn (Fn(u8) -> u8)) {}", "pub struct Vis { pub a: u8, pub(crate) b: u8, pub(super) c: u8, pub(in crate::m) d: u8, pub(self) e: u8, f: u8 }",
+    "const _: () = { assert!(true); }; static X: [u8; { 1 + 2 }] = [0; 3];", "union U { a: (u8,), b: ManuallyDrop<String> }", "mod m { #![allow(unused)] //! inner doc\n pub use super::*; }",
+    "/// outer doc\n/** block doc */\n#[inline(always)]\nfn documented() {}", "impl<const N: usize> Default for A<N> where [u8; N]: Sized { fn default() -> Self { Self([0; N]) } }",
+]
+SYN_MACRO_VARS = {"e": ["size", "zebra", "freeze"], "x": ["fuzzx", "zx_y"], "i": ["zip", "azimuth"], "s": ["zs", "buzzsaw"], "t": ["zt", "ritzt"], "n": ["zn", "horizon_zn"], "ty": ["zty", "fuzzty"], "a": ["za", "pizza"]}
+SYN_PRESETS = [[], [["indent_style", "Visual"]], [["style_edition", "2024"]], [["indent_style", "Visual"], ["style_edition", "2024"], ["fn_params_layout", "Vertical"]],
+               [["brace_style", "AlwaysNextLine"], ["control_brace_style", "AlwaysNextLine"], ["where_single_line", "true"], ["fn_single_line", "true"]],
+               [["use_small_heuristics", "Max"], ["trailing_comma", "Never"], ["overflow_delimited_expr", "true"], ["match_arm_blocks", "false"]]]
+
+
+def synth_cases(tier, seed):
+    from . import c16
+    progs = []
+    for i, st in enumerate(SYN_STMTS):
+        progs.append(("stmt%d" % i, "fn wrapper(value: T) -> R {\n    %s\n}\n" % st))
+    for i, e in enumerate(c16.SWEEP_EXPRS):
+        progs.append(("expr%d" % i, "fn wrapper() {\n    let (first_binding_name,) = %s;\n}\n" % e))
+    for i, it in enumerate(SYN_ITEMS + c16.SWEEP_ITEMS):
+        progs.append(("item%d" % i, it + "\n"))
+        progs.append(("item%d.nested" % i, "mod outer {\n    mod inner {\n" + it + "\n    }\n}\n"))
+    for v, names in SYN_MACRO_VARS.items():
+        frag = "expr" if v != "ty" else "ty"
+        for nm in names:
+            use = "let %s   =   $%s;" % (nm, v) if v != "ty" else "let %s: $%s   =   make();" % (nm, v)
+            progs.append(("macro_%s_%s" % (v, nm), "macro_rules! with_%s {\n    ($%s:%s) => {\n        %s\n            consume(%s,   0);\n    };\n}\n" % (nm, v, frag, use, nm)))
+    out = []
+    widths = list(range(20, 131))
+    for pi, (name, text) in enumerate(progs):
+        for si, pre in enumerate(SYN_PRESETS):
+            for w in widths:
+                if tier != "thorough" and (w + pi + si + seed) % 6:
+                    continue
+                out.append((name, si, str(w), text, [["max_width", str(w)], ["edition", "2024"]] + pre))
+    return out
+
+
 def opts_code(cfg):
     o = {}
     for k, v in cfg:
@@ -195,6 +255,13 @@ def run(tier, seed, replay):
             continue
         cases.append({"text": texts[tk], "config": cfg, "again": True, "lex": True})
         meta.append((p["id"], lay, pr, w))
+    n_pool = len(cases)
+    if not replay or json.load(open(replay)).get("pool_id", "").startswith("synth/"):
+        for name, si, w, text, cfg in synth_cases(tier, seed):
+            if replay and ("synth/" + name != rp["pool_id"] or str(rp["width"]) != w or rp["preset"] != "syn%d" % si):
+                continue
+            cases.append({"text": text, "config": cfg, "again": True, "lex": True})
+            meta.append(("synth/" + name, "orig", "syn%d" % si, w))
     res = common.run_vh_pool("pool", cases, per_case_timeout=20)
     judged = []          # (index, opts code)
     found = 0
@@ -259,7 +326,8 @@ def run(tier, seed, replay):
             for k in mismatches:
                 f.write(k + "\n")
     rep.coverage.update({
-        "evaluations": len(cases), "accepted_and_judged": len(judged), "distinct_nontrivial": n_changed,
+        "evaluations": len(cases), "pool_runs": n_pool, "synthetic_runs": len(cases) - n_pool, "accepted_and_judged": len(judged), "distinct_nontrivial": n_changed,
+        "synthetic_rule": "%d statement / pattern forms, the expression and item forms of the C16 margin sweep, %d further item forms (rare modifiers, negative impls, restricted visibilities, GATs, attributes; each also two modules deep) and %d macro_rules definitions whose bodies use identifiers containing z<metavariable>, x %d layout presets (Block / Visual indent, style edition 2024, vertical parameters, next-line braces, Max heuristics) x every max_width 20..130 (quick: one width in six, selected by the seed)" % (len(SYN_STMTS), len(SYN_ITEMS), len(SYN_MACRO_VARS), len(SYN_PRESETS)),
         "not_judged_option_outside_validator": n_unjudged,
         "rule": "fixed grid: committed pool (%d programs) x layouts %s x presets %s x max_width %s; thorough = whole grid, quick = the 1/%d slice selected by the seed. For every run rustfmt accepts: (1) the output is formatted again in process and must be accepted by the parser; (2) the rustc_lexer token streams of input and output are normalised by the extracted, proved `norm` under the run's options and must be equal; (3) a sample is re-evaluated by vm_compute in Coq. Cases whose configuration sets one of %s to true are not judged (these options rewrite tokens in ways the validator does not implement), nor are %s" % (len(P), GRID_LAYOUTS, GRID_PRESETS, GRID_WIDTHS, MOD, sorted(UNJUDGED), INCOMPLETE),
         "programs": len(P),
